@@ -262,7 +262,11 @@ def identifier_folding(ctx):
                                 f'input string', f.file, n.lineno)
     # line numbers: canonical name cannot be spelled by users
     ln = repo.func('qbee.program', 'LineNo.get_canonical_name')
-    ok = "f'_lineno_{line_number}'" in unparse(ln.node)
+    ok = any(isinstance(j, ast.JoinedStr) and len(j.values) == 2 and
+             isinstance(j.values[0], ast.Constant) and
+             j.values[0].value == '_lineno_' and
+             isinstance(j.values[1], ast.FormattedValue)
+             for j in ast.walk(ln.node))
     ctx.instance(rule, f'{ln.file}:LineNo.get_canonical_name')
     if not ok:
         ctx.finding(rule, f'{ln.file}:LineNo.get_canonical_name',
@@ -296,7 +300,8 @@ def optional_syntax(ctx):
                     'the two call forms deliver different token lists',
                     'qbee/grammar.py', getattr(c, 'lineno', 1))
     pc = repo.func('qbee.grammar', 'parse_call')
-    ok = 'CallStmt(toks[0], toks[1:])' in unparse(pc.node)
+    from .. import pat
+    ok = pat.has('CallStmt(_T[0], _T[1:])', pc.node)
     ctx.instance(rule, f'{pc.file}:parse_call')
     if not ok:
         ctx.finding(rule, f'{pc.file}:parse_call',
